@@ -146,11 +146,11 @@ Section SpecLemmas.
   Proof. unfold pack_q, q8t. destruct (Z.leb (- two63) z && Z.ltb z two63)%bool; intros E; [inversion E; reflexivity|discriminate]. Qed.
 
   Lemma node_spec (rec : list nat -> value -> hres) st m d e :
-    m < length h ->
+    m < length h -> above m st ->
     (forall v b e, below m v -> rec (m :: st) v = Ok (b, e) -> b = spec_v h T v /\ e = 0) ->
     hnode_with H cs h rec st m = Ok (d, e) -> d = nth m T [] /\ e = 0.
   Proof.
-    intros Lm Hrec E. rewrite (table_fix m Lm). unfold spec_node. unfold hnode_with in E.
+    intros Lm Hab Hrec E. rewrite (table_fix m Lm). unfold spec_node. unfold hnode_with in E.
     destruct (nsig cs h m) as [sg|] eqn:Esg; cbn [bind] in E; [|discriminate].
     pose proof Esg as Esg0.
     unfold nsig, getnode in Esg. destruct (nth_error h m) as [x|] eqn:Ex; cbn [bind] in Esg; [|discriminate].
@@ -166,6 +166,8 @@ Section SpecLemmas.
         destruct (Nat.eqb t' m) eqn:Eq; [discriminate|]. inversion Et. subst t'.
         apply Nat.eqb_neq in Eq. specialize (Ot t eq_refl). lia. }
       destruct (Hrec (VRef t) b1 e1) as [-> ->]; [intros q [<-|[]]; exact Ht|exact R1|].
+      rewrite tmark_none in RT.
+      2:{ apply index_of_none. intros [->|Hin]; [lia|]. specialize (Hab t Hin). lia. }
       inversion RT. split; reflexivity. }
     destruct GT as [-> ->].
     destruct (seq_list_spec (hsel (rec (m :: st))) (spec_arg h T) (sg_args sg)) with (bs := ba) (e := ea) as [-> ->]; [|exact RA|].
@@ -224,7 +226,7 @@ Section SpecLemmas.
       destruct (look m) as [dg|] eqn:Elk.
       + inversion E. cbn [spec_v]. rewrite (Hlook m dg Elk). split; reflexivity.
       + match type of E with (bind ?t _) = _ => destruct t as [[d0 e0]|] eqn:R end; cbn [bind] in E; [|discriminate].
-        destruct (node_spec (hv H cs h look f) st m d0 e0) as [-> ->]; [lia| |exact R|].
+        destruct (node_spec (hv H cs h look f) st m d0 e0) as [-> ->]; [lia|intros s0 Hs0; specialize (Ha s0 Hs0); lia| |exact R|].
         { intros v b1 e1 Hbv R1. apply (IH m (m :: st) v b1 e1); try assumption; [|lia].
           intros s [<-|Hs]; [lia|specialize (Ha s Hs); lia]. }
         inversion E. cbn [spec_v]. split; reflexivity.
@@ -238,7 +240,7 @@ Section SpecLemmas.
     { unfold hnode, hnode_with in E. destruct (nsig cs h n) as [sg|] eqn:Esg; cbn [bind] in E; [|discriminate].
       unfold nsig, getnode in Esg. destruct (nth_error h n) eqn:Ex; cbn [bind] in Esg; [|discriminate].
       apply nth_error_Some. congruence. }
-    apply (node_spec (hv H cs h look fuel) [] n d e Ln); [|exact E].
+    apply (node_spec (hv H cs h look fuel) [] n d e Ln); [intros s0 []| |exact E].
     intros v b1 e1 Hbv R1. apply (hv_spec fuel n [n] v b1 e1); try assumption; [|lia].
     intros s [<-|[]]. lia.
   Qed.
